@@ -276,7 +276,10 @@ def _iter_expect(prog, op):
         return "rooterr"
     sub = SP.subtree(prog.t, root)
     items = []
-    for st, leaf in SP.enum(sub, D - len(root)):
+    nodes = SP.enum(sub, D - len(root))
+    if len(nodes) > 5000:
+        return None       # the reference enumeration is cut off at 5000 nodes (arrays with thousands of elements): not judged
+    for st, leaf in nodes:
         full = root + st
         r = SP.render(full, tg, D)
         if r is None:
